@@ -298,6 +298,31 @@ func c01Specs(thorough bool) []mb.Msg {
 	// file sources: every file API that consumes caller-owned memory at the call (AttachReader / EmbedReader on a
 	// reader over memory the caller recycles afterwards, on one scratch buffer the caller refills per file) and the
 	// lazy read-seeker, × file encoding × 1..2 embeds × 1..2 attachments
+	// messages that are rendered while still incomplete and completed afterwards (with and without a caller-fixed boundary)
+	for _, bd := range []string{"", "caller-fixed-boundary-grow"} {
+		for np := 1; np <= 2; np++ {
+			for ne := 0; ne <= 1; ne++ {
+				for na := 0; na <= 1; na++ {
+					if ne+na == 0 {
+						continue
+					}
+					for g := 1; g <= 2; g++ {
+						s := mb.Msg{Boundary: bd, Grow: g, Parts: []mb.Part{{Type: "text/plain", Content: texts[3]}}}
+						if np == 2 {
+							s.Parts = append(s.Parts, mb.Part{Type: "text/html", Content: texts[5]})
+						}
+						if ne == 1 {
+							s.Embeds = []mb.File{{Name: "e.png", Content: bins[2]}}
+						}
+						if na == 1 {
+							s.Attach = []mb.File{{Name: "a.bin", Content: bins[3]}}
+						}
+						specs = append(specs, s)
+					}
+				}
+			}
+		}
+	}
 	// parts whose content is replaced through Part.SetContent (what the EML parser does, too)
 	for ti := range texts {
 		for _, menc := range encs {
@@ -374,7 +399,7 @@ func init() {
 	vf.Register(&vf.Check{
 		ID: "C01", Title: "rendered MIME carries exactly the content the caller supplied",
 		Run: func(r *vf.Run) {
-			r.SetRule("builder programs in canonical order: 0..3 body parts × 0..2 embeds × 0..2 attachments × message encoding {QP, base64, 8bit} × file encoding {default base64, 8bit, QP via File.Enc} × per-part encodings/descriptions/content types/fixed boundary, contents rotated through a 25-entry text alphabet and an 18-entry binary alphabet (wrap points 57/58/75/76/77, dots, '=', boundary-like lines, bare CR/LF, all 256 byte values, 3000-byte binary); plus every single byte value in every encoding; plus files supplied through AttachReader/EmbedReader (memory recycled by the caller afterwards; one scratch buffer refilled per file) and Attach/EmbedReadSeeker; bodies and files produced from text/html templates; part contents replaced through Part.SetContent; each program is rendered through WriteTo, WriteToFile onto an existing longer file, NewReader, Write, WriteToTempFile and a second WriteTo of the same Msg; each rendering is re-read by the harness' own MIME reader and compared leaf by leaf; distinct by program")
+			r.SetRule("builder programs in canonical order: 0..3 body parts × 0..2 embeds × 0..2 attachments × message encoding {QP, base64, 8bit} × file encoding {default base64, 8bit, QP via File.Enc} × per-part encodings/descriptions/content types/fixed boundary, contents rotated through a 25-entry text alphabet and an 18-entry binary alphabet (wrap points 57/58/75/76/77, dots, '=', boundary-like lines, bare CR/LF, all 256 byte values, 3000-byte binary); plus every single byte value in every encoding; plus files supplied through AttachReader/EmbedReader (memory recycled by the caller afterwards; one scratch buffer refilled per file) and Attach/EmbedReadSeeker; bodies and files produced from text/html templates; part contents replaced through Part.SetContent; messages rendered while still incomplete and completed afterwards; each program is rendered through WriteTo, WriteToFile onto an existing longer file, NewReader, Write, WriteToTempFile and a second WriteTo of the same Msg; each rendering is re-read by the harness' own MIME reader and compared leaf by leaf; distinct by program")
 			r.Assume("file media types without WithFileContentType are those of mime.TypeByExtension", "charset of text parts is the default UTF-8", "NUL bytes are not text")
 			specs := c01Specs(r.Thorough)
 			r.Extra("programs", len(specs))
